@@ -317,8 +317,8 @@ func (r *Run) returnsNewSession(f *types.Func) bool {
 			return true
 		}
 		c := r.P.canon(def, x, 0)
-		if !strings.HasPrefix(c, "call:models.NewSession(") {
-			ok = false
+		if !strings.HasPrefix(c, "call:models.NewSession(") && !r.isJoinLocalSession(def, x) {
+			ok = false // (a helper may also hand back its own join-local session: looked up by id or newly made)
 		}
 		return true
 	})
